@@ -109,6 +109,8 @@ func main() {
 		}
 	}
 	results := make([]*UnitResult, len(cons))
+	var extraResults []*UnitResult
+	var emu sync.Mutex
 	var wg sync.WaitGroup
 	sem := make(chan struct{}, 8)
 	for i, con := range cons {
@@ -117,7 +119,13 @@ func main() {
 			defer wg.Done()
 			sem <- struct{}{}
 			defer func() { <-sem }()
-			if con.Kind == "lemma" {
+			if con.Kind == "refine" {
+				rs := eng.VerifyRefine(con, wd, timeout, all)
+				emu.Lock()
+				extraResults = append(extraResults, rs...)
+				emu.Unlock()
+				results[i] = &UnitResult{Key: shortPkg(con.Pkg) + ".refine " + con.Key, Tags: con.Tags, Trusted: false}
+			} else if con.Kind == "lemma" {
 				results[i] = eng.VerifyLemma(con, wd, timeout, all)
 			} else {
 				results[i] = eng.VerifyFunc(con, wd, timeout, all)
@@ -125,6 +133,7 @@ func main() {
 		}(i, con)
 	}
 	wg.Wait()
+	results = append(results, extraResults...)
 	partialRun = *only != ""
 	rep := buildReport(eng, *prop, *tier, results, *verifDir, start)
 	rep.print(*verbose)
